@@ -161,6 +161,8 @@ def do_place(st, S, value_item, kind, via, check):
 
 
 class AccountingSpec(BfsSpec):
+    observe_prefix = True      # the invariant's observations are made at every step of a replayed history
+
     """(i) accounting bfs: time accounting under place/+/remove_last histories."""
 
     def __init__(self, meter, vals):
@@ -209,6 +211,8 @@ CONTENT_FORMS = ["str", "note", "list", "nc", "rest", "empty_list", "empty_nc"]
 
 
 class ContentSpec(BfsSpec):
+    observe_prefix = True      # the invariant's observations are made at every step of a replayed history
+
     """(ii) content bfs: what is stored, __setitem__, place_notes_at, remove_last."""
 
     def __init__(self, meter):
